@@ -18,11 +18,13 @@ META = {
                    "the map entry keyed by the loop's own (distinct) key; ordered sinks = String::push_str/+, Vec::push/append whose receiver outlives the loop. "
                    "`map.insert(k, v)` on a map that outlives an unordered loop is a last-one-wins sink unless k is that loop's own distinct key. "
                    "A source reaching an ordered sink unsanitised, or a loop exit other than exhaustion inside an unordered loop, is a violation naming both. "
+                   "A local set before an unordered loop and inside it, and read inside it other than by a commutative update of itself, is state carried from one element "
+                   "to the next in hash order: a violation as well. "
                    "R13.deferred: analyze_dir pushes (file, lines) in listing order into the returned map; this is discharged only because every consumer sorts "
                    "each per-pattern list before rendering (checked). R13.noseed: no rand / time / pid / env reads in the analysed call graph.",
     "assumptions": ["slice::sort* and Ord for (String, BTreeSet<integer>) are total orders (std contract)",
                     "BTreeSet/BTreeMap iterate in key order (std contract)"],
-    "floors": {"R13.loop": 12, "R13.sanitizer": 6, "R13.deferred": 3},
+    "floors": {"R13.loop": 12, "R13.sanitizer": 6, "R13.deferred": 3, "R13.verdicts": 1},
 }
 
 MAP_INSERT = ("std::collections::HashMap::<K, V, S, A>::insert", "std::collections::BTreeMap::<K, V, A>::insert", "std::collections::HashMap::<K, V, S>::insert")
@@ -151,6 +153,9 @@ def sort_key_total(crate, sort_site):
     return False, "unrecognised comparator"
 
 
+from rules.isolation import carried_state
+
+
 def run(ctx, crate):
     obs = []
     sc = scope(crate)
@@ -213,6 +218,11 @@ def run(ctx, crate):
             for (x, t) in extra:
                 obs.append(Ob("R13.exit", b.path, "early exit from a %s loop over %s" % (src, show(it)[:60]), False,
                               site="%s:%d" % (b.file, b.blocks[x]["tloc"]["line"]), expected="exhaustion is the only exit of an unordered loop"))
+            for (l, how) in carried_state(b, lp):
+                obs.append(Ob("R13.taint", b.path, "a %s loop carries `%s` from one element to the next and looks at it (%s)" % (src, b.locals[l]["name"], how), False,
+                              site=lp.site.where, expected="what is done for one element of an unordered collection does not depend on the elements visited before it",
+                              found="%s : %s, set inside the loop and before it, read at %s" % (b.locals[l]["name"], b.locals[l]["ty"], how),
+                              example="two runs over the same file: the hash order of the collection decides which elements see the earlier state"))
             for s in S.call_sites(b):
                 if s.bb not in lp.blocks or s.path not in O.ORDERED_SINKS or not s.args:
                     continue
@@ -294,6 +304,12 @@ def run(ctx, crate):
             obs.append(Ob("R13.taint", b.path, "order-sensitive %s on a list that is still in discovery order" % nm, False, site=s.where,
                           expected="sort before any operation that looks at neighbours or positions", found="%s(%s)" % (nm, show(obj)[:60]),
                           example="two identical (file, lines) entries with another file discovered between them"))
+    # what is found in a file must not depend on which files were analysed before it: with state shared between the per-file analyses (a cache, a cursor, a
+    # scratch table) the set of findings itself follows the discovery order, and two listings of the same content give two reports
+    from rules import depend
+    obs.append(depend.inherited(ctx, crate, "R13.verdicts", "analyze_for_* x3", "the findings of a file do not depend on the files discovered before it (C15's obligations on shared state and effects)",
+                                "C15", lambda o: o.rule in ("R15.globals", "R15.effects", "R15.fileno"),
+                                example="the same tree listed directory-first and file-first"))
     # consumers of the deferred listing order
     if any(o.rule == "R13.deferred" for o in obs):
         for g in gens:
